@@ -388,6 +388,29 @@ def _shard(arg):
         res.nontrivial(n=n)
         res.label("after-private-subclasses", n)
         return res
+    if kind == "flags-generic-first":
+        # fresh interpreter: the first objects the program ever asks "do you expect an answer?" are generic ones (a frame
+        # of a length no command has, unknown gear / device commands, an event); only then the commands of the tables
+        from dali import command, frame
+        asked = []
+        for bits, v in ((25, 0x1FFFFFF), (25, 0), (16, 0xCB00), (24, 0x01FEF0), (24, 0xE1FE00), (24, 0x028401), (8, 0x55), (17, 3)):
+            try:
+                o = command.Command.from_frame(frame.ForwardFrame(bits, v))
+                asked.append((type(o).__name__, bool(o.is_query), bool(o.sendtwice)))
+            except Exception as e:  # noqa
+                asked.append(("raised", type(e).__name__, None))
+        res.extra["generic_objects_asked_first"] = asked
+        for row in T.ROWS:
+            cls = lib_class(row)
+            if cls is None:
+                continue
+            case = {"row": row.name, "op": "flags", "generic_first": True}
+            res.count()
+            res.nontrivial()
+            for sig, msg in check_flags(row, cls, mods):
+                res.violation(sig + ":generic-objects-asked-first", case, msg + " (the first objects asked were %r)" % (asked[:3],))
+        res.label("flags-generic-objects-asked-first", len(T.ROWS))
+        return res
     if kind == "flags-after-use":
         n = decode_storm(mods)
         res.extra["decodes_before_flag_recheck"] = n
@@ -455,6 +478,7 @@ def run(ctx):
     shards.insert(0, ("flags-after-use", None))
     shards.insert(1, ("private-subclasses", None))
     ctx.pmap(_shard, shards)
+    ctx.pmap(_shard, [("flags-generic-first", None)], fresh=True)
     res = ctx.result
     res.exhaustive = not ctx.quick
     tabled = set(T.BY_NAME)
